@@ -1316,7 +1316,18 @@ class RewriteAtQuery(NodeTransformer):
                         annotation=self.replacement_node.value,
                     )
 
-                if idx is not None and len(node.args.defaults) > idx:
+                if idx is not None:
+                    # `_idx` counts parameters from the left (not counting `self`/`cls`);
+                    # `defaults` is aligned with the right end of `args`
+                    idx -= (
+                        len(node.args.args)
+                        - int(
+                            bool(node.args.args)
+                            and node.args.args[0].arg in frozenset(("self", "cls"))
+                        )
+                        - len(node.args.defaults)
+                    )
+                if idx is not None and 0 <= idx < len(node.args.defaults):
                     new_default = get_value(self.replacement_node)
                     if new_default not in none_types:
                         node.args.defaults[idx] = new_default
